@@ -23,11 +23,11 @@ namespace GeographicLib {
       throw GeographicErr("Latitude " + Utility::str(lat)
                           + "d not in [-" + to_string(Math::qd)
                           + "d, " + to_string(Math::qd) + "d]");
+    lon = Math::AngNormalize(lon); // first: an infinite longitude becomes NaN here
     if (isnan(lat) || isnan(lon)) {
       gars = "INVALID";
       return;
     }
-    lon = Math::AngNormalize(lon);
     if (lon == Math::hd) lon = -Math::hd; // lon now in [-180,180)
     if (lat == Math::qd) lat *= (1 - numeric_limits<real>::epsilon() / 2);
     prec = max(0, min(int(maxprec_), prec));
